@@ -22,14 +22,70 @@ import (
 	"github.com/ipld/go-ipld-prime/datamodel"
 	"github.com/ipld/go-ipld-prime/node/bindnode"
 	"github.com/ipld/go-ipld-prime/schema"
+	schemadmt "github.com/ipld/go-ipld-prime/schema/dmt"
+	schemadsl "github.com/ipld/go-ipld-prime/schema/dsl"
 )
 
-// SchLoad compiles the DSL of t (names assigned) and returns the root type.
+// SchTypeSystem builds one type system for the given roots (names assigned, distinct across roots):
+// everything expressible goes through the schema DSL (parser + compiler); stringprefix unions with a
+// non-empty delimiter, which the DSL cannot express, are spawned through the schema API.
+// prelude: also declare Any, Map, List (the code generator cannot emit them).
+func SchTypeSystem(roots []*SchTy, prelude bool) (*schema.TypeSystem, error) {
+	var dsl strings.Builder
+	var delimited []*SchTy
+	seen := map[string]bool{}
+	for _, t := range roots {
+		t.dsl(&dsl, seen)
+		delimited = t.Delimited(delimited)
+	}
+	if len(delimited) == 0 && prelude {
+		return ipld.LoadSchemaBytes([]byte(dsl.String()))
+	}
+	sch, err := schemadsl.ParseBytes([]byte(dsl.String()))
+	if err != nil {
+		return nil, err
+	}
+	ts := &schema.TypeSystem{}
+	ts.Init()
+	if prelude {
+		schema.SpawnDefaultBasicTypes(ts)
+	} else {
+		ts.Accumulate(schema.SpawnBool("Bool"))
+		ts.Accumulate(schema.SpawnInt("Int"))
+		ts.Accumulate(schema.SpawnFloat("Float"))
+		ts.Accumulate(schema.SpawnString("String"))
+		ts.Accumulate(schema.SpawnBytes("Bytes"))
+		ts.Accumulate(schema.SpawnLink("Link"))
+	}
+	if err := schemadmt.SpawnSchemaTypes(ts, sch); err != nil {
+		return nil, err
+	}
+	done := map[string]bool{}
+	for _, u := range delimited {
+		if done[u.Name] {
+			continue
+		}
+		done[u.Name] = true
+		var members []schema.TypeName
+		table := map[string]schema.TypeName{}
+		for _, m := range u.Members {
+			members = append(members, m.Name)
+			table[m.Disc] = m.Name
+		}
+		ts.Accumulate(schema.SpawnUnion(u.Name, members, schema.SpawnUnionRepresentationStringprefix(u.Delim, table)))
+	}
+	if errs := ts.ValidateGraph(); errs != nil {
+		return nil, fmt.Errorf("schema graph: %v", errs)
+	}
+	return ts, nil
+}
+
+// SchLoad compiles t (names assigned) and returns the root type.
 func SchLoad(t *SchTy) (schema.Type, *schema.TypeSystem, error) {
 	var ts *schema.TypeSystem
 	err := Safely(func() error {
 		var e error
-		ts, e = ipld.LoadSchemaBytes([]byte(t.DSL()))
+		ts, e = SchTypeSystem([]*SchTy{t}, true)
 		return e
 	})
 	if err != nil {
